@@ -82,6 +82,10 @@ def _events():
     ev("parse(settings spell out another default)", lambda a: P("01/02/2020", languages=["en"], settings=a["s"]), {"s": {"DATE_ORDER": "MDY"}})
     ev("search(de+en, digits only)", lambda a: search_dates("Final: 01.02.2020, 03.04.2021", languages=a["l"], add_detected_language=True), {"l": ["de", "en"]})
     ev("search(en+de, digits only)", lambda a: search_dates("Final: 01.02.2020, 03.04.2021", languages=a["l"], add_detected_language=True), {"l": ["en", "de"]})
+    ev("parse(string zone UTC)", lambda a: P("2014-05-05 10:00 UTC", languages=["en"]), core=True)
+    ev("parse(string zone UTC+05:30)", lambda a: P("2014-05-05 10:00 UTC+05:30", languages=["en"]), core=True)
+    ev("parse(string zone GMT+0800 (CST))", lambda a: P("Fri Sep 23 2016 10:34:51 GMT+0800 (CST)", languages=["en"]))
+    ev("parse(string zone CST)", lambda a: P("2014-05-05 10:00 CST", languages=["en"]))
     ev("parse(parsers absolute only)", lambda a: P("yesterday", languages=["en"], settings=a["s"]), {"s": {"PARSERS": ["absolute-time"]}})
     ev("parse(en, cache limit 1)", lambda a: P("02/03/2015", languages=["en"], settings=a["s"]), {"s": {"CACHE_SIZE_LIMIT": 1}}, core=True)
     ev("parse(fr, cache limit 1)", lambda a: P("2 mars 2015", languages=["fr"], settings=a["s"]), {"s": {"CACHE_SIZE_LIMIT": 1}}, core=True)
